@@ -266,7 +266,16 @@ def mk_value(ctx: Ctx, d: dict) -> Any:
     elif t == "inst":
         cls = get_class(ctx, d["cls"])
         vals = [mk_value(ctx, x) for x in d["vals"]]
-        if d["cls"]["kind"] in (1, 2):
+        if d["cls"]["kind"] == 1 and len(d["names"]) < len(dataclasses.fields(cls)):
+            # an instance one of whose declared fields holds no value (deleted attribute / never-assigned
+            # `init=False` field / unset slot): built complete, then the attribute is removed
+            given = dict(zip(d["names"], vals))
+            allf = [f.name for f in dataclasses.fields(cls)]
+            v = cls(**{n: given.get(n) for n in allf})
+            for n in allf:
+                if n not in given:
+                    object.__delattr__(v, n)
+        elif d["cls"]["kind"] in (1, 2):
             v = cls(**dict(zip(d["names"], vals)))
         else:
             v = cls()
@@ -331,7 +340,7 @@ def canon_value(ctx: Ctx, v: Any) -> dict:
             base = [b for b in t.__mro__ if b in BUILTIN_TY][0]
             return {"t": "sub", "cls": c, "v": canon_value(ctx, base(v))}
         if c["kind"] == 1:
-            names = [f.name for f in dataclasses.fields(v)]
+            names = [f.name for f in dataclasses.fields(v) if hasattr(v, f.name)]
             doid = ctx.oid.get(id(v.__dict__), 0) if hasattr(v, "__dict__") else 0
             return {"t": "inst", "oid": oid, "doid": doid, "cls": c, "names": names,
                     "vals": [canon_value(ctx, getattr(v, n)) for n in names]}
